@@ -143,6 +143,7 @@ def compare_lxml(model, impl, args):
 # ----------------------------------------------------------------- generators
 from props import c03_oracle as _O  # noqa: E402,F401  (must be imported before c03_models)
 from props import c03_models  # noqa: E402
+from props import c03_compose  # noqa: E402
 from props.c03_gen import (  # noqa: E402
     gen_clean,
     gen_escape,
@@ -169,6 +170,9 @@ CORRS = [
     Corr("ser.object", c03_models.gen_ser_object, c03_models.impl_ser_object, canon=c03_models.canon_ser_object,
          classify=lambda a, o: "ok:depth%d" % c03_models.depth(a["model"]) if "ok" in o else "err:" + str(o.get("err")),
          describe="XmlSerializer.render of dataclasses built from a declarative model (both writers) vs Lean Spec.ObjectTree.specRoot"),
+    Corr("ser.compose", c03_compose.gen_compose, c03_compose.impl_compose, compare=c03_compose.cmp_compose,
+         classify=c03_compose.classify_compose,
+         describe="XmlSerializer(writer=XmlEventWriter).render on real class universes vs Bind/Gen ∘ Xml/Writer (exact text)"),
     Corr("ns.clean", gen_clean, impl_clean, describe="clean_prefixes"),
     Corr("xml.split_qname", gen_split, impl_split, describe="split_qname"),
     Corr("ns.load_prefix", gen_prefix, impl_load_prefix, describe="load_prefix"),
